@@ -36,8 +36,9 @@ type uRoot struct {
 	V    int    `json:"v"`
 }
 type npmCase struct {
-	Universe []uPkg `json:"universe"`
-	Root     uRoot  `json:"root"`
+	Universe []uPkg          `json:"universe"`
+	Root     uRoot           `json:"root"`
+	Model    json.RawMessage `json:"model,omitempty"`
 }
 type npmTables struct {
 	Versions []string `json:"versions"`
@@ -77,14 +78,15 @@ type nTree struct {
 	AKids  []nKid `json:"akids"`
 }
 type npmObs struct {
-	Universe []uPkg  `json:"universe"`
-	Root     uRoot   `json:"root"`
-	Ok       bool    `json:"ok"`
-	Err      string  `json:"err"`
-	GErr     string  `json:"gerr"`
-	Graph    nGraph  `json:"graph"`
-	Tree     []nTree `json:"tree"`
-	Unmapped string  `json:"unmapped"` // something in the result could not be expressed in pool indices
+	Model    json.RawMessage `json:"model,omitempty"` // what the algorithm model NpmResolve.tla returns; passed through to the trace
+	Universe []uPkg          `json:"universe"`
+	Root     uRoot           `json:"root"`
+	Ok       bool            `json:"ok"`
+	Err      string          `json:"err"`
+	GErr     string          `json:"gerr"`
+	Graph    nGraph          `json:"graph"`
+	Tree     []nTree         `json:"tree"`
+	Unmapped string          `json:"unmapped"` // something in the result could not be expressed in pool indices
 }
 
 func npmDepType(d uDep) dep.Type {
@@ -173,7 +175,7 @@ func cmdNpm(args []string) error {
 	defer w.Close()
 	ctx := context.Background()
 	for _, c := range cases {
-		o := npmObs{Universe: c.Universe, Root: c.Root, Graph: nGraph{Nodes: []nNode{}, Edges: []nEdge{}}, Tree: []nTree{}}
+		o := npmObs{Universe: c.Universe, Root: c.Root, Graph: nGraph{Nodes: []nNode{}, Edges: []nEdge{}}, Tree: []nTree{}, Model: c.Model}
 		lc := loadNpmUniverse(c, tb)
 		var tree *npm.VerifNode
 		npm.VerifTree = func(r *npm.VerifNode) { tree = r }
